@@ -650,6 +650,19 @@ def gen_cases(tier, rng):
                     par = gen_par(rng, name, a, kind, scale)
                     route = "dispatch" if (can_dispatch(name, par) and (name in ("non_negative", "normalize") or rng.random() < 0.4)) else "direct"
                     yield name, par, a, route, kind, klass
+        # smoothness_prox with three or more dimensions (NumPy's stacked solve, Model/ProxDispatch.smooth_nd): accepted iff shape[-2] == shape[0]
+        for shape in (((2, 2, 2), (3, 3, 2), (3, 1, 2), (2, 3, 2), (2, 2, 2, 2)) if rep == 0 else ((2, 2, 3),)) if tier == "quick" else \
+                ((2, 2, 2), (3, 3, 2), (2, 2, 3), (3, 1, 2), (2, 3, 2), (2, 2, 2, 2), (3, 2, 3, 2), (4, 4, 1), (2, 1, 2, 1), (1, 1, 1)):
+            for klass in ("signed", "const") if tier == "quick" else ("signed", "const", "zeros", "spike"):
+                a, kind, scale = gen_array(rng, "smoothness", shape, klass)
+                par = gen_par(rng, "smoothness", a, kind, scale)
+                u = rng.random()
+                route = "direct"
+                if can_dispatch("smoothness", par) and u < 0.6:
+                    n_const = rng.choice([1, 2, 3]); mode = rng.randrange(n_const)
+                    route = "dispatch" if u < 0.3 else {"specs": [["smoothness", rng.choice(["dict", "list"]), mode, par, [], bool(rng.random() < 0.3)]],
+                                                        "n_const": n_const, "order": mode - (n_const if rng.random() < 0.3 else 0)}
+                yield "smoothness", par, a, route, kind, klass
         if rep < 2:
             yield from gen_reject_cases(rng)
         for shape in (mshapes_q if tier == "quick" else mshapes_t):
@@ -757,6 +770,10 @@ ND_REFUSED = {"monotone_inc", "monotone_dec", "unimodality", "simplex", "soft_sp
 
 
 def op_lit(name, par, a, tape=None, route=None, raised=False):
+    if np.asarray(a).ndim > 2 and name == "smoothness":
+        # presented as the rows of the shape[-2] x shape[-1] slices: OSmoothNd raised shape[0] shape[-2] <the call>
+        sh = np.asarray(a).shape
+        return f"(OSmoothNd {'true' if raised else 'false'} {sh[0]}%nat {sh[-2]}%nat {op_lit(name, par, np.asarray(a).reshape(-1, sh[-1]), tape, route)})"
     if np.asarray(a).ndim > 2:
         # a tensor with three or more dimensions, presented as first axis x the rest: ONd ndim raised <the call>
         flat2 = np.asarray(a).reshape(np.asarray(a).shape[0], -1)
@@ -868,6 +885,28 @@ def evaluate(chk, name, par, a, route, kind, klass, rng, cases, meta):
                 meta.append(inputs)
         else:
             chk.finding(ep, inputs, f"the operator crashed instead of refusing a tensor with {a.ndim} dimensions: {out}", "reject_clean")
+        return
+    if a.ndim > 2 and name == "smoothness":
+        # three or more dimensions: the code as it is (stacked solve) refuses unless shape[-2] == shape[0] and then smooths every slice along
+        # axis -2; compared with Model/ProxDispatch.smooth_nd (raised-iff-the-model-refuses, values, the tridiagonal system per slice column)
+        q = a.shape[-1]
+        if (st == "reject" and str(out).startswith("ValueError")) or st == "ok":
+            outv = a if st != "ok" else np.asarray(out)
+            if outv.size == a.size and np.all(np.isfinite(outv)):
+                if st == "ok":
+                    for sl_in, sl_out in zip(a.reshape(-1, a.shape[-2], q), np.asarray(outv, float).reshape(-1, a.shape[-2], q)):
+                        r = smooth_matrix(a.shape[-2], float(par)) @ sl_out - sl_in
+                        if np.max(np.abs(r)) > 1e-9 * max(float(np.max(np.abs(a))), 1e-300) * (1 + 4 * abs(float(par))):
+                            chk.finding(ep, inputs, f"a slice of the output does not solve the coded tridiagonal system along axis -2: residual {float(np.max(np.abs(r)))!r}",
+                                        "smoothness_nd_system", observed=outv); break
+                atol, rtol = tolerances(name, par, a, kind)
+                cid = len(cases)
+                cases.append(f"(({cid})%Z, {op_lit(name, par, a, None, route, raised=(st != 'ok'))}, {rows_lit(a.reshape(-1, q), a.size // q)}, {rows_lit(np.asarray(outv).reshape(-1, q), a.size // q)}, {C.q(atol)}, {C.q(rtol)})")
+                meta.append(inputs)
+            else:
+                chk.finding(ep, inputs, f"output is not a finite array of the input's size: {str(outv)[:80]}", "finite_same_size")
+        else:
+            chk.finding(ep, inputs, f"the operator crashed instead of refusing a tensor of shape {a.shape}: {out}", "reject_clean")
         return
     if st != "ok":
         chk.finding(ep, inputs, f"the operator raised on a valid input: {out}", name + "_feasible")
